@@ -44,6 +44,38 @@ theorem aggregateT_errFwd (S : Sem χ ρ ν ε κ α) (L : LimEnv ε) (site : Si
   simp only [aggregateT]
   cases L.time (.inner site) st.n <;> simp
 
+theorem loopT_errFwd (L : LimEnv ε) (timeSite : Site) (stage : String) :
+    ErrFwd (loopT (ρ := ρ) L timeSite stage) := by
+  intro st e _
+  simp only [loopT]
+  cases L.time timeSite st.n <;> simp
+
+omit [DecidableEq κ] in
+theorem dropErrT_false {σ : Type} (t : Trans σ ε ρ) : dropErrT false t = t := by
+  cases t with
+  | mk step done flush =>
+    simp only [dropErrT, Trans.mk.injEq, and_true]
+    funext st x
+    cases x <;> rfl
+
+omit [DecidableEq κ] in
+/-- over an error-free input the missing arm makes no difference -/
+theorem dropErrT_run_ok {σ : Type} (b : Bool) (t : Trans σ ε ρ) (rows : List ρ) :
+    ∀ st, (dropErrT b t).run st (rows.map .ok) = t.run st (rows.map .ok) := by
+  induction rows with
+  | nil => intro st; rfl
+  | cons r rs ih =>
+    intro st
+    simp only [List.map_cons, Trans.run_cons]
+    show (if t.done st then [] else (t.step st (.ok r)).2 ++ (dropErrT b t).run (t.step st (.ok r)).1 (rs.map .ok)) = _
+    rw [ih]
+
+omit [DecidableEq κ] in
+theorem dropErrs_false (s : Stream ε ρ) : dropErrs false s = s := rfl
+
+theorem Quirks.dropsErr_of_nil (Q : Quirks) (h : Q.drops = []) (k : OpKind) : Q.dropsErr k = false := by
+  simp [Quirks.dropsErr, h]
+
 /-! ### the guard -/
 
 theorem guard_pulled_ok (L : LimEnv ε) (site : Site) (s : Stream ε ρ) (d : Nat)
@@ -92,9 +124,23 @@ theorem batches_ok (g : Nat → ρ → Stream ε ρ) (k : Nat) (c : Stream ε ρ
         · exact ⟨hd, h.1⟩
         · exact ih (k + 1) _ h.2 b hb'
 
+theorem handedFrom_items (g : Bool) (s : Stream ε ρ) : ∀ seen, (handedFrom g seen s).map (·.item) = s := by
+  induction s with
+  | nil => intro seen; rfl
+  | cons x xs ih => intro seen; simp [handedFrom, ih]
+
 theorem handed_ok_iff (g : Bool) (s : Stream ε ρ) :
     (∀ h ∈ handed g s, Item.isOk h.item = true) ↔ allOk s = true := by
-  simp [handed, allOk_iff]
+  rw [allOk_iff]
+  constructor
+  · intro h x hx
+    rw [← handedFrom_items g s false] at hx
+    obtain ⟨y, hy, rfl⟩ := List.mem_map.1 hx
+    exact h y hy
+  · intro h y hy
+    apply h
+    rw [← handedFrom_items g s false]
+    exact List.mem_map.2 ⟨y, hy, rfl⟩
 
 end
 
@@ -159,11 +205,15 @@ variable {σ ε ρ : Type}
 theorem parkT_errFwd (t : Trans σ ε ρ) (hf : ErrFwd t) (parks : σ → Except ε ρ → Option ε)
     (fp : σ → Option ε) (drop : Bool) : ErrFwd (parkT t parks fp drop) := by
   intro st e hd
-  obtain ⟨e', rest, he⟩ := hf st.1 e hd
   simp only [parkT]
-  cases firstSome st.2 (parks st.1 (.error e)) with
-  | none => exact ⟨e', rest, he⟩
-  | some e2 => rw [he]; exact ⟨e2, rest, rfl⟩
+  cases st.2 with
+  | some e2 => exact hf st.1 e2 hd
+  | none =>
+    obtain ⟨e', rest, he⟩ := hf st.1 e hd
+    simp only
+    cases parks st.1 (.error e) with
+    | none => exact ⟨e', rest, he⟩
+    | some e2 => rw [he]; exact ⟨e2, rest, rfl⟩
 
 theorem parkT_run_cons (t : Trans σ ε ρ) (parks : σ → Except ε ρ → Option ε) (fp : σ → Option ε) (drop : Bool)
     (st : σ) (pend : Option ε) (x : Except ε ρ) (xs : Stream ε ρ) (hd : t.done st = false) :
@@ -174,9 +224,29 @@ theorem parkT_run_cons (t : Trans σ ε ρ) (parks : σ → Except ε ρ → Opt
   have : (parkT t parks fp drop).done (st, pend) = false := hd
   rw [this]; simp
 
-/-- operators that never say `done` (Project, Unwind): if the `d` items handed out are all `Ok`,
-    nothing was pending and no pulled row parked a failure — wherever the stream ends -/
-theorem park_ok_of_never_done (t : Trans σ ε ρ) (hnd : ∀ st, t.done st = false)
+theorem parkT_step_pending (t : Trans σ ε ρ) (parks : σ → Except ε ρ → Option ε) (fp : σ → Option ε) (drop : Bool)
+    (a : σ) (e : ε) (x : Except ε ρ) :
+    (parkT t parks fp drop).step (a, some e) x = (((t.step a (.error e)).1, none), (t.step a (.error e)).2) := rfl
+
+theorem parkT_step_none (t : Trans σ ε ρ) (parks : σ → Except ε ρ → Option ε) (fp : σ → Option ε) (drop : Bool)
+    (a : σ) (x : Except ε ρ) (h : parks a x = none) :
+    (parkT t parks fp drop).step (a, none) x = (((t.step a x).1, none), (t.step a x).2) := by
+  simp only [parkT, h]
+
+theorem parkT_step_some_nil (t : Trans σ ε ρ) (parks : σ → Except ε ρ → Option ε) (fp : σ → Option ε) (drop : Bool)
+    (a : σ) (x : Except ε ρ) (e : ε) (h : parks a x = some e) (ho : (t.step a x).2 = []) :
+    (parkT t parks fp drop).step (a, none) x = (((t.step a x).1, some e), []) := by
+  simp only [parkT, h, ho]
+
+theorem parkT_step_some_cons (t : Trans σ ε ρ) (parks : σ → Except ε ρ → Option ε) (fp : σ → Option ε) (drop : Bool)
+    (a : σ) (x : Except ε ρ) (e : ε) (y : Except ε ρ) (ys : Stream ε ρ)
+    (h : parks a x = some e) (ho : (t.step a x).2 = y :: ys) :
+    (parkT t parks fp drop).step (a, none) x = (((t.step a x).1, none), .error e :: ys) := by
+  simp only [parkT, h, ho]
+
+/-- operators that never say `done` (Project, Unwind, ProcedureCall): if the `d` items handed out are
+    all `Ok`, nothing was pending and no pulled row parked a failure — wherever the stream ends -/
+theorem park_ok_of_never_done (t : Trans σ ε ρ) (hf : ErrFwd t) (hnd : ∀ st, t.done st = false)
     (parks : σ → Except ε ρ → Option ε) (fp : σ → Option ε) :
     ∀ (s : Stream ε ρ) (st : σ) (pend : Option ε) (d : Nat), d ≠ 0 →
       allOk (((parkT t parks fp false).run (st, pend) s).take d) = true →
@@ -186,48 +256,47 @@ theorem park_ok_of_never_done (t : Trans σ ε ρ) (hnd : ∀ st, t.done st = fa
   | nil =>
     intro st pend d hd h
     rw [Trans.run_nil] at h
-    simp only [parkT, hnd st, Bool.false_eq_true, if_false] at h
-    simp only [parkEvents, hnd st, hd, Bool.false_eq_true, or_self, if_false]
     obtain ⟨d', rfl⟩ := Nat.exists_eq_succ_of_ne_zero hd
+    simp only [parkEvents, hnd st, Bool.false_eq_true, or_false, Nat.succ_ne_zero, if_false]
     cases pend with
-    | some e => cases hfl : t.flush st <;> simp [firstSome, hfl, List.take_succ_cons] at h
+    | some e =>
+      obtain ⟨e', rest, he⟩ := hf st e (hnd st)
+      simp [parkT, hnd st, he, List.take_succ_cons] at h
     | none =>
       cases hfp : fp st with
       | none => exact ⟨rfl, rfl⟩
-      | some e => cases hfl : t.flush st <;> simp [firstSome, hfp, hfl, List.take_succ_cons] at h
+      | some e => cases hfl : t.flush st <;> simp [parkT, hnd st, hfp, hfl, List.take_succ_cons] at h
   | cons x xs ih =>
     intro st pend d hd h
     rw [parkT_run_cons _ _ _ _ _ _ _ _ (hnd st)] at h
-    simp only [parkEvents, hnd st, hd, Bool.false_eq_true, or_self, if_false]
     obtain ⟨d', rfl⟩ := Nat.exists_eq_succ_of_ne_zero hd
-    simp only [parkT] at h
-    cases hfs : firstSome pend (parks st x) with
+    simp only [parkEvents, hnd st, Bool.false_eq_true, or_false, Nat.succ_ne_zero, if_false]
+    cases pend with
     | some e =>
-      rw [hfs] at h
-      cases hout : (t.step st x).2 with
-      | nil =>
-        rw [hout] at h
-        simp only [List.nil_append] at h
-        exact absurd (ih _ (some e) (d' + 1) (by omega) h).1 (by simp)
-      | cons y ys =>
-        rw [hout] at h
-        simp [List.take_succ_cons] at h
+      obtain ⟨e', rest, he⟩ := hf st e (hnd st)
+      rw [parkT_step_pending] at h
+      simp [he, List.take_succ_cons] at h
     | none =>
-      rw [hfs] at h
-      simp only at h
-      have hp : pend = none ∧ parks st x = none := by
-        cases pend with
-        | some e => simp [firstSome] at hfs
-        | none => exact ⟨rfl, by simpa [firstSome] using hfs⟩
-      refine ⟨hp.1, ?_⟩
-      rw [hp.2]
-      simp only [Option.toList, List.nil_append]
-      split
-      · rfl
-      · rename_i hlen
-        rw [List.take_append] at h
-        simp only [allOk_append, Bool.and_eq_true] at h
-        exact (ih _ none _ (by omega) h.2).2
+      refine ⟨rfl, ?_⟩
+      cases hp : parks st x with
+      | some e =>
+        cases hout : (t.step st x).2 with
+        | nil =>
+          rw [parkT_step_some_nil _ _ _ _ _ _ e hp hout] at h
+          simp only [List.nil_append] at h
+          exact absurd (ih _ (some e) (d' + 1) (by omega) h).1 (by simp)
+        | cons y ys =>
+          rw [parkT_step_some_cons _ _ _ _ _ _ e y ys hp hout] at h
+          simp [List.take_succ_cons] at h
+      | none =>
+        rw [parkT_step_none _ _ _ _ _ _ hp] at h
+        simp only at h ⊢
+        split
+        · rfl
+        · rename_i hlen
+          rw [List.take_append] at h
+          simp only [allOk_append, Bool.and_eq_true] at h
+          exact (ih _ none _ (by omega) h.2).2
 
 /-- blocking operators (OrderBy, Aggregate: failures are parked only by the work done once the
     input is exhausted): the same -/
@@ -249,11 +318,10 @@ theorem park_ok_of_flush_only (t : Trans σ ε ρ) (fp : σ → Option ε) :
         | false => rfl
         | true => exact absurd (Or.inr hdn) hnd
       rw [Trans.run_nil] at h
-      simp only [parkT, hdone, Bool.false_eq_true, if_false, firstSome] at h
       obtain ⟨d', rfl⟩ := Nat.exists_eq_succ_of_ne_zero hd0
       cases hfp : fp st with
       | none => rfl
-      | some e => cases hfl : t.flush st <;> simp [hfp, hfl, List.take_succ_cons] at h
+      | some e => cases hfl : t.flush st <;> simp [parkT, hdone, hfp, hfl, List.take_succ_cons] at h
   | cons x xs ih =>
     intro st d h
     simp only [parkEvents]
@@ -264,9 +332,7 @@ theorem park_ok_of_flush_only (t : Trans σ ε ρ) (fp : σ → Option ε) :
         cases hdn : t.done st with
         | false => rfl
         | true => exact absurd (Or.inr hdn) hnd
-      rw [parkT_run_cons _ _ _ _ _ _ _ _ hdone] at h
-      simp only [parkT, firstSome] at h
-      simp only [Option.toList, List.nil_append]
+      rw [parkT_run_cons _ _ _ _ _ _ _ _ hdone, parkT_step_none _ _ _ _ _ _ rfl] at h
       split
       · rfl
       · rw [List.take_append] at h
@@ -283,7 +349,8 @@ variable {χ ρ ν ε κ α : Type} [DecidableEq κ]
 /-- the operators of `Q` are the repaired ones as far as `Err` items are concerned -/
 def Quirks.forwardsErr (Q : Quirks) : Prop :=
   Q.distinctDropsErr = false ∧ Q.unionDropsErr = false ∧ Q.skipDropsErr = false ∧
-  Q.orderByKeepsErr = false ∧ Q.existsSwallowsErr = false ∧ Q.guardDropsFailureAtEnd = false
+  Q.orderByKeepsErr = false ∧ Q.existsSwallowsErr = false ∧ Q.guardDropsFailureAtEnd = false ∧
+  Q.drops = []
 
 instance (Q : Quirks) : Decidable Q.forwardsErr := by unfold Quirks.forwardsErr; infer_instance
 
@@ -338,29 +405,127 @@ theorem trace_ok (S : Sem χ ρ ν ε κ α) (Q : Quirks) (hq : Q.forwardsErr) (
     (p : Plan χ ρ ε α) : ∀ (site : Site) (env : ρ) (d : Nat),
     allOk ((runL S Q L site env p).take d) = true →
     ∀ x ∈ trace false S Q L site env p d, Item.isOk x.item = true := by
-  obtain ⟨hq1, hq2, hq3, hq4, hq5, hq6⟩ := hq
+  obtain ⟨hq1, hq2, hq3, hq4, hq5, hq6, hq7⟩ := hq
+  have hd := Quirks.dropsErr_of_nil Q hq7
   induction p with
-  | source items => intro site env d h; exact leafTrace_ok L site items d h
+  | scan rows => intro site env d h; exact leafTrace_ok L site _ d h
+  | fail e => intro site env d h; exact leafTrace_ok L site _ d h
   | arg => intro site env d h; exact leafTrace_ok L site _ d h
-  | filter pred inp ih =>
-    intro site env d h
-    exact unaryTrace_ok L site _ (mapT_errFwd _) _ _ _ d (ih _ _) h
-  | project projs inp ih =>
+  | indexSeek key value fb ih =>
     intro site env d h
     simp only [runL, trace, hq6] at h ⊢
+    have h1 := guard_pulled_ok L site _ d h
+    -- a failure parked by the seek value is the first item of the node
+    have hpark : ∀ e, S.park L.coll value env S.empty = some e →
+        guardNeed L site (parkHead (S.park L.coll value env S.empty) false
+          (seekBody S L env key value (runL S Q L (.left site) env fb))) d = 0 := by
+      intro e hp
+      rw [hp] at h1 ⊢
+      generalize guardNeed L site _ d = d1 at h1
+      cases d1 with
+      | zero => rfl
+      | succ d' =>
+        cases hb : seekBody S L env key value (runL S Q L (.left site) env fb) <;>
+          simp [parkHead, hb, List.take_succ_cons] at h1
+    intro x hx
+    rcases List.mem_append.1 hx with hx | hx
+    · rcases List.mem_append.1 hx with hx | hx
+      · exact (handed_ok_iff true _).2 h1 x hx
+      · split at hx
+        · simp at hx
+        · rename_i hne
+          cases hp : S.park L.coll value env S.empty with
+          | none => rw [hp] at hx; simp at hx
+          | some e => exact absurd (hpark e hp) hne
+    · cases hev : S.eval L.coll value env S.empty with
+      | error e => rw [hev] at hx; simp at hx
+      | ok v =>
+        rw [hev] at hx
+        simp only at hx
+        cases hl : S.lookup key v with
+        | some rows => rw [hl] at hx; simp at hx
+        | none =>
+          rw [hl] at hx
+          simp only at hx
+          have hc : allOk ((runL S Q L (.left site) env fb).take
+              (guardNeed L site (parkHead (S.park L.coll value env S.empty) false
+                (seekBody S L env key value (runL S Q L (.left site) env fb))) d)) = true := by
+            cases hp : S.park L.coll value env S.empty with
+            | some e => have h0 := hpark e hp; rw [hp] at h0; rw [h0]; rfl
+            | none =>
+              rw [hp] at h1
+              simpa [parkHead, seekBody, hev, hl, hp] using h1
+          rcases List.mem_append.1 hx with hx | hx
+          · exact (handed_ok_iff false _).2 hc x hx
+          · exact ih _ _ _ hc x hx
+  | filter pred inp ih =>
+    intro site env d h
+    simp only [runL, trace, hd, dropErrT_false] at h ⊢
+    exact unaryTrace_ok L site _ (mapT_errFwd _) _ _ _ d (ih _ _) h
+  | procedureCall name args inp ih =>
+    intro site env d h
+    simp only [runL, trace, hq6, hd, dropErrT_false] at h ⊢
+    exact parkTrace_ok L site _ (flatMapT_errFwd _) _ _
+      (fun s st d' hd' h' => (park_ok_of_never_done _ (flatMapT_errFwd _) (fun _ => rfl) _ _ s st none d' hd' h').2) _ _ _ d (ih _ _) h
+  | fixup nulls outer filtered iho ihf =>
+    intro site env d h
+    simp only [runL, trace, hd, dropErrT_false, eagerPre, Bool.false_eq_true, if_false, Nat.max_zero] at h ⊢
+    have h1 := guard_pulled_ok L site _ d h
+    split
+    · simp
+    · rename_i hne
+      obtain ⟨d', hd'⟩ := Nat.exists_eq_succ_of_ne_zero hne
+      -- the node's first item is `Ok`: none of the three loops failed
+      have ho : allOk ((loopT (ρ := ρ) L (.inner site) "OptionalWhereFixup.outer").run ⟨0, 0, false⟩
+          (runL S Q L (.left site) env outer)) = true := by
+        cases hc : collect ((loopT (ρ := ρ) L (.inner site) "OptionalWhereFixup.outer").run ⟨0, 0, false⟩
+            (runL S Q L (.left site) env outer)) with
+        | ok rows => exact (collect_ok_iff _).1 ⟨rows, hc⟩
+        | error e =>
+          rw [hd'] at h1
+          simp [fixupBody, hd, dropErrT_false, hc, List.take_succ_cons] at h1
+      obtain ⟨orows, hco⟩ := (collect_ok_iff _).2 ho
+      have hf : allOk ((loopT (ρ := ρ) L (.inner (.inner site)) "OptionalWhereFixup.filtered").run ⟨0, 0, false⟩
+          (runL S Q L (.right site) env filtered)) = true := by
+        cases hc : collect ((loopT (ρ := ρ) L (.inner (.inner site)) "OptionalWhereFixup.filtered").run ⟨0, 0, false⟩
+            (runL S Q L (.right site) env filtered)) with
+        | ok rows => exact (collect_ok_iff _).1 ⟨rows, hc⟩
+        | error e =>
+          rw [hd'] at h1
+          simp [fixupBody, hd, dropErrT_false, hco, hc, List.take_succ_cons] at h1
+      have hpo := (loopT (ρ := ρ) L (.inner site) "OptionalWhereFixup.outer").pulled_ok (loopT_errFwd _ _ _) ⟨0, 0, false⟩
+        (runL S Q L (.left site) env outer) (driverDemand ((loopT (ρ := ρ) L (.inner site) "OptionalWhereFixup.outer").run ⟨0, 0, false⟩
+          (runL S Q L (.left site) env outer))) (allOk_take _ _ ho)
+      have hpf := (loopT (ρ := ρ) L (.inner (.inner site)) "OptionalWhereFixup.filtered").pulled_ok (loopT_errFwd _ _ _) ⟨0, 0, false⟩
+        (runL S Q L (.right site) env filtered) (driverDemand ((loopT (ρ := ρ) L (.inner (.inner site)) "OptionalWhereFixup.filtered").run ⟨0, 0, false⟩
+          (runL S Q L (.right site) env filtered))) (allOk_take _ _ hf)
+      rw [ho]
+      simp only [if_true]
+      intro x hx
+      simp only [List.mem_append] at hx
+      rcases hx with ((hx | hx) | hx) | hx | hx
+      · exact (handed_ok_iff true _).2 h1 x hx
+      · exact (handed_ok_iff false _).2 hpo x hx
+      · exact iho _ _ _ hpo x hx
+      · exact (handed_ok_iff false _).2 hpf x hx
+      · exact ihf _ _ _ hpf x hx
+  | project projs inp ih =>
+    intro site env d h
+    simp only [runL, trace, hq6, hd, dropErrT_false] at h ⊢
     exact parkTrace_ok L site _ (mapT_errFwd _) _ _
-      (fun s st d' hd' h' => (park_ok_of_never_done _ (fun _ => rfl) _ _ s st none d' hd' h').2) _ _ _ d (ih _ _) h
+      (fun s st d' hd' h' => (park_ok_of_never_done _ (mapT_errFwd _) (fun _ => rfl) _ _ s st none d' hd' h').2) _ _ _ d (ih _ _) h
   | distinct inp ih =>
     intro site env d h
     simp only [runL, trace, hq1] at h ⊢
     exact unaryTrace_ok L site _ (distinctT_errFwd S) _ _ _ d (ih _ _) h
   | unwind e alias inp ih =>
     intro site env d h
-    simp only [runL, trace, hq6] at h ⊢
+    simp only [runL, trace, hq6, hd, dropErrT_false] at h ⊢
     exact parkTrace_ok L site _ (flatMapT_errFwd _) _ _
-      (fun s st d' hd' h' => (park_ok_of_never_done _ (fun _ => rfl) _ _ s st none d' hd' h').2) _ _ _ d (ih _ _) h
-  | expand f inp ih =>
+      (fun s st d' hd' h' => (park_ok_of_never_done _ (flatMapT_errFwd _) (fun _ => rfl) _ _ s st none d' hd' h').2) _ _ _ d (ih _ _) h
+  | expand kind g inp ih =>
     intro site env d h
+    simp only [runL, trace, hd, dropErrT_false] at h ⊢
     exact unaryTrace_ok L site _ (flatMapT_errFwd _) _ _ _ d (ih _ _) h
   | skip n inp ih =>
     intro site env d h
@@ -381,7 +546,7 @@ theorem trace_ok (S : Sem χ ρ ν ε κ α) (Q : Quirks) (hq : Q.forwardsErr) (
       (fun s st d' _ h' => park_ok_of_flush_only _ _ s st d' h') _ _ _ d (ih _ _) h
   | aggregate groupBy aggs inp ih =>
     intro site env d h
-    simp only [runL, trace, hq6] at h ⊢
+    simp only [runL, trace, hq6, hd, dropErrT_false] at h ⊢
     exact parkTrace_ok L site _ (aggregateT_errFwd S L site env groupBy aggs) _ _
       (fun s st d' _ h' => park_ok_of_flush_only _ _ s st d' h') _ _ _ d (ih _ _) h
   | union all l r ihl ihr =>
@@ -415,7 +580,7 @@ theorem trace_ok (S : Sem χ ρ ν ε κ α) (Q : Quirks) (hq : Q.forwardsErr) (
       · exact ihr _ _ _ h2'.2 x hx
   | filterExists sub inp ihs ihi =>
     intro site env d h
-    simp only [runL, trace] at h ⊢
+    simp only [runL, trace, hd, dropErrT_false] at h ⊢
     intro x hx
     rcases List.mem_append.1 hx with hx | hx
     · exact unaryTrace_ok L site _ (flatMapT_errFwd _) _ _ _ d (ihi _ _) h x hx
@@ -436,7 +601,7 @@ theorem trace_ok (S : Sem χ ρ ν ε κ α) (Q : Quirks) (hq : Q.forwardsErr) (
         | error e => simp [existsRow, hq5, List.take_succ_cons] at hbok
   | cartesian l r ihl ihr =>
     intro site env d h
-    simp only [runL, trace] at h ⊢
+    simp only [runL, trace, hd, dropErrT_false, dropErrs_false] at h ⊢
     intro x hx
     rcases List.mem_append.1 hx with hx | hx
     · exact unaryTrace_ok L site _ (flatMapT_errFwd _) _ _ _ d (ihl _ _) h x hx
@@ -449,7 +614,7 @@ theorem trace_ok (S : Sem χ ρ ν ε κ α) (Q : Quirks) (hq : Q.forwardsErr) (
       exact hbok
   | apply inp sub ihi ihs =>
     intro site env d h
-    simp only [runL, trace] at h ⊢
+    simp only [runL, trace, hd, dropErrT_false, dropErrs_false] at h ⊢
     cases ht : L.time (.inner site) 0 with
     | some e => rw [ht] at h; exact leafTrace_ok L site _ d h
     | none =>
